@@ -17,7 +17,7 @@ for d in /verif/seeded/$pat/; do
   if ! git -C $wt apply $d/patch.diff 2>/dev/null; then echo "$id: patch no longer applies"; git -C /repo worktree remove --force $wt; continue; fi
   log=$(cd $ev && VERIF_REPO=$wt timeout 1500 ./check $prop --tier $tier 2>&1); rc=$?
   git -C /repo worktree remove --force $wt
-  first=$(echo "$log" | grep -m1 '^VIOLATION' ); detail=$(echo "$log" | grep -m1 '^  (' | cut -c1-160)
+  first=$(echo "$log" | grep -a -m1 '^VIOLATION' | tr -cd '[:print:]'); detail=$(echo "$log" | grep -a -m1 '^  (' | cut -c1-160 | tr -cd '[:print:]')
   caught=no; [ $rc = 1 ] && [ -n "$first" ] && caught=yes
   grep -v "^$id	" $out > $out.tmp; mv $out.tmp $out
   printf "%s\t%s\t%s\t%s\t%s\t%s\n" "$id" "$prop" "$tier" "$caught" "$first" "$detail" >> $out
